@@ -14,6 +14,7 @@ type FuncResult struct {
 	fn        *ssa.Function
 	eng       *Engine
 	undecided string
+	searchNote string
 	args      []Val
 	bind      []Val
 }
@@ -39,6 +40,14 @@ func newEngine(c *Context, sp *ssa.Package, fn *ssa.Function, fc *FuncContract) 
 			for _, p := range []*callPattern{ec.Every, ec.Needs} {
 				if p != nil && p.static != "" {
 					e.noInline[p.static] = true
+				}
+			}
+		}
+		// callees named by result_of(...) / called(...) must stay visible as events, too
+		for _, pf := range fc.posts {
+			for _, cr := range pf.calls {
+				if cr.callee != "" && cr.callee != "<dynamic>" {
+					e.noInline[cr.callee] = true
 				}
 			}
 		}
@@ -92,6 +101,14 @@ func (e *Engine) entryProvider(fn *ssa.Function, args, bind []Val, st *State) fu
 			if fv.Name() == name && i < len(bind) {
 				if v := e.load(st, bind[i], fv.Type().(*types.Pointer).Elem(), "true", token.NoPos); v != nil {
 					return v, true
+				}
+			}
+		}
+		// closure verified in the context of its parent: the parent's parameters are in scope as well
+		if e.ctxParent != nil && fn.Parent() == e.ctxParent {
+			for i, p := range e.ctxParent.Params {
+				if p.Name() == name && i < len(e.ctxParentArgs) {
+					return e.ctxParentArgs[i], true
 				}
 			}
 		}
@@ -152,7 +169,20 @@ func (e *Engine) evalPostNamed(sp *ssa.Package, pf postFn, fn *ssa.Function, arg
 			if k < len(pf.calls) {
 				for _, p := range post.Params {
 					if p.Name() == name {
-						return e.callRefValue(pf.calls[k], exit, p.Type()), true
+						ref := pf.calls[k]
+						if ref.dynFn != "" {
+							df := sp.Func(ref.dynFn)
+							if df == nil {
+								return nil, false
+							}
+							dv := e.pureCallIn(sp, df, e.bindLowered(df, e.entryProvider(fn, args, bind, entry)), nil, entry)[0]
+							ov, isO := dv.(OpaqueV)
+							if !isO {
+								return nil, false
+							}
+							ref.dynT = ov.T
+						}
+						return e.callRefValue(ref, exit, p.Type()), true
 					}
 				}
 			}
@@ -240,6 +270,50 @@ func (c *Context) verifyFunc(fc *FuncContract) (res *FuncResult) {
 	}()
 	st := newState()
 	args, bind := e.setupInputs(st, fn)
+	if fc.Context && fn.Parent() != nil {
+		// closure verified in the context of its enclosing function: the parent runs first (its own obligations are
+		// not part of this contract), the closure then starts from the bindings and the heap the parent left
+		parent := fn.Parent()
+		pst := newState()
+		pargs, pbind := e.setupInputs(pst, parent)
+		e.quiet++
+		pvals, pout, preach := e.execFunc(parent, pargs, pbind, pst, "true", false)
+		e.quiet--
+		var fv *FuncV
+		var find func(v Val)
+		find = func(v Val) {
+			switch x := v.(type) {
+			case FuncV:
+				if x.Fn == fn && fv == nil {
+					fv = &x
+				}
+			case OpaqueV:
+				if b, ok := e.boxed[x.T]; ok {
+					find(b)
+				}
+			case TupleV:
+				for _, y := range x {
+					find(y)
+				}
+			}
+		}
+		for _, v := range pvals {
+			find(v)
+		}
+		if fv == nil {
+			res.undecided = "context: the enclosing function does not return this closure on a single merged path"
+			return
+		}
+		e.fact(preach)
+		st = pout
+		args = nil
+		for _, p := range fn.Params {
+			args = append(args, e.symbolic(st, p.Type(), p.Name()))
+		}
+		bind = fv.Bind
+		e.ctxParent, e.ctxParentArgs = parent, pargs
+		e.events = nil
+	}
 	res.args, res.bind = args, bind
 	if pre, ok := e.evalPre(sp, fc, fn, args, bind, st); ok {
 		e.fact(pre)
